@@ -340,7 +340,7 @@ func gen(r *lib.Rand, tier string, emit func(string)) {
 		sp, dp, ln, ck := randPort(r), randPort(r), r.Pick([]int{0, 7, 8, n + 8, r.Intn(65536)}) % 65536, r.Pick([]int{0, 0xffff, r.Intn(65536)})
 		emit("reset")
 		for o := 0; o < 4; o++ {
-			if n > 2000 && o != c%4 {
+			if n > 2000 && o != (c/12)%4 {
 				continue // big payloads: one option set per case
 			}
 			h := r.Pick([]int{0, 1, 2, 3, 4, 5, 6, 7, 8, 9})
